@@ -3,24 +3,28 @@ CHECK = {
   'engine': 'seqx',
   'technique': 'bounded exhaustive enumeration of INI file texts x set() histories x ways of writing, and of CSV tables over a 13-cell alphabet, '
                'executed on the real IniFile / TabularDataFile with scratch files and compared with a plain std:: line parser + std::map model and the written cell table; ASan',
-  'level_text': 'Every INI text of up to 4 (quick) / 5 (thorough) lines over {[a],[b],x=1,y=2,"  z=3","# c","; c",empty} x {LF,CRLF} x {final newline, none} is put on disk, '
-                'every history of up to 2 / 3 set() calls over {a/x,a/n,b/y,c/k,x} x {v,"w w"} is applied through the real IniFile and written by the destructor or by write() '
-                '(thorough: write() at every position of the history); 20-call histories with a write() in the middle run on every text of up to 3 lines. After every write the raw text '
-                'is re-parsed by an independent line parser (comment lines and untouched entries must be the same sequence as before) and a fresh IniFile must return every set value '
-                '(under the name used in set()) and every untouched pre-existing value. Every CSV table of the shapes 1x1..2x2, 3x1, 1x3 (thorough also 3x2, 2x3) over '
-                '{1,-2.5,1e-7,123456789012345,"",a,",",";","\\"","\'"," ","a,b","\\"q\\""} and 26 fill patterns of every shape up to 30x8 are written cell-wise and as row arrays and read back by a fresh '
-                'TabularDataFile (data(), nextRow()/[i]/[name]) and compared cell for cell, type-aware, numbers by their %.15g rendering. Complete enumeration, no sampling.',
-  'level_note': 'Right level: both classes are line-oriented, the control flow depends on the kind of each line / cell and on a handful of positions (first/last line, first header, blank runs), '
+  'level_text': 'Every INI text of up to 4 lines (thorough: 5) over {[a],[b],x=1,y=2,"  z=3","# c","; c",empty} x {LF,CRLF} x {final newline, none} is put on disk, '
+                'every history of up to 2 set() calls (thorough: 3 on texts of up to 4 lines) over {a/x,a/n,b/y,c/k,x} x {v,"w w"} is applied through the real IniFile and written by the '
+                'destructor or by write() + destructor (thorough, texts of up to 3 lines: write() after every prefix of the history); 20-call histories with a write() in the middle run on every '
+                'text of up to 3 lines. After every write the raw text is re-parsed by an independent line parser (comment lines and untouched entries must be the same sequence as before) and a '
+                'fresh IniFile must return every set value (under the name used in set()) and every untouched pre-existing value. Every CSV table of the shapes 1x1..2x2, 3x1, 1x3 (thorough also '
+                '3x2, 2x3) over {1,-2.5,1e-7,123456789012345,"",a,",",";","\\"","\'"," ","a,b","\\"q\\""} and 26 fill patterns of every shape up to 30x8 are written cell-wise and as row arrays, read back by a '
+                'fresh TabularDataFile (data(), nextRow()/[i]/[name]) and compared cell for cell, type-aware, numbers by their %.15g rendering. Complete enumeration, no sampling.',
+  'level_note': 'Right level: both classes are line-oriented; the control flow depends on the kind of each line / cell and on a handful of positions (first/last line, first header, blank runs), '
                 'which the alphabets cover exhaustively at these lengths. Values/keys are the fixed ones of the alphabet (identifier keys, values without outer blanks), as the quantifier states; '
-                'digit-only or "-" strings are excluded from CSV string cells because the reader types them as numbers. set() histories of 4..19 calls are only covered by the 20-call macros. '
-                'A name without "/" is taken to address the entries before the first header if the file has any, else the first section (the class\'s "current section").',
+                'digit-only or "-" strings are excluded from CSV string cells because the reader types them as numbers. The largest products (5-line texts x 2 sets, 4-line texts x 3 sets, 3x2/2x3 tables) '
+                'run in part c18_deep without sanitizer (value and order oracles only); ASan covers texts <=4 lines x 2 sets, 5-line texts x 1 set, the 20-set macros and all other tables. '
+                'set() histories of 4..19 calls are only covered by the 20-call macros. A name without "/" is taken to address the entries before the first header if the file has any, else the first section '
+                '(the class\'s "current section"); the full product 5 lines x 3 sets of DESIGN.md (3.3e8 file round trips) is not run.',
   'rule': 'odometer enumeration: texts = lines^<=N x eol x final-newline; histories = ops^<=K x write position; tables = cells^(rows*cols) x 2 write modes; '
-          'evaluations = cases executed; distinct_nontrivial = cases with at least one entry in the file or one set() (INI) / all tables (CSV); each case distinct by construction',
-  'parts': [{'bin': 'c18_inicsv', 'flavour': 'asan', 'deadline': {'quick': 600, 'thorough': 3000}}],
-  'bounds': {'quick': 'INI: texts <=4 lines (4681 x eol x final newline) x histories <=2 sets (111) x {destructor, write()+destructor}; 20-set macros on texts <=3 lines; '
+          'evaluations = cases executed; distinct_nontrivial = cases with at least one entry in the file or one set() (INI) / all tables (CSV); each case distinct by construction within a part '
+          '(c18_deep repeats the smaller INI spaces of c18_inicsv without sanitizer)',
+  'parts': [{'bin': 'c18_inicsv', 'flavour': 'asan', 'deadline': {'quick': 900, 'thorough': 2400}},
+            {'bin': 'c18_deep', 'flavour': 'plain', 'thorough_only': True, 'deadline': {'quick': 900, 'thorough': 3600}}],
+  'bounds': {'quick': 'INI: texts <=4 lines (4681 x eol x final newline) x histories <=2 sets (111) x {destructor, write()+destructor}; 20-set macros x 3 write positions on texts <=3 lines; '
                       'CSV: all tables 1x1,1x2,2x1,2x2,3x1,1x3 x {cell-wise, arrays}; 26 fills of every shape <=30x8',
-             'thorough': 'INI: texts <=5 lines x histories <=2 sets; texts <=4 lines x histories <=3 sets x write() at every position; 20-set macros with 6 write positions; '
-                         'CSV: additionally all tables 3x2 and 2x3'},
+             'thorough': 'INI (ASan): quick space + 5-line texts x histories <=1 set; 20-set macros x 6 write positions. INI (plain): texts <=5 lines x histories <=2 sets; texts <=4 lines x histories <=3 sets; '
+                         'texts <=3 lines x histories <=3 sets x write() after every prefix. CSV: quick space + (plain) all 13^6 tables 3x2 and 2x3'},
   'assumptions': ['scratch files on /dev/shm (tmpfs) or /verif/build; LC_ALL=C', 'reference = plain C++ line parser (std:: only) of the text before and after, std::map model of the sets',
-                  'numbers compared by their %.15g rendering (the writer prints %.15g)', 'g++ -O2 + AddressSanitizer'],
+                  'numbers compared by their %.15g rendering (the writer prints %.15g)', 'g++ -O2 + AddressSanitizer (part c18_inicsv); part c18_deep has no memory-safety oracle'],
 }
